@@ -24,6 +24,11 @@ pub trait Fam {
     fn clear_res(res: &String) -> bool;
     fn get() -> Vec<Arc<Self::R>>;
     fn get_res(res: &String) -> Option<Vec<Arc<Self::R>>>;
+    /// the rules bound to the objects that decide entries on `res` (controllers / breakers), where the manager
+    /// keeps them apart from the rules it reports
+    fn enforced(_res: &String) -> Option<Vec<Arc<Self::R>>> {
+        None
+    }
 }
 
 pub struct FlowF;
@@ -65,6 +70,13 @@ impl Fam for FlowF {
     }
     fn get_res(res: &String) -> Option<Vec<Arc<flow::Rule>>> {
         Some(flow::get_rules_of_resource(res))
+    }
+    fn enforced(res: &String) -> Option<Vec<Arc<flow::Rule>>> {
+        let mut v = Vec::new();
+        for c in flow::get_traffic_controller_list_for(res).iter() {
+            v.push(c.rule().clone());
+        }
+        Some(v)
     }
 }
 
@@ -161,6 +173,13 @@ impl Fam for CbF {
     fn get_res(res: &String) -> Option<Vec<Arc<cb::Rule>>> {
         Some(cb::get_rules_of_resource(res))
     }
+    fn enforced(res: &String) -> Option<Vec<Arc<cb::Rule>>> {
+        let mut v = Vec::new();
+        for b in cb::get_breakers_of_resource(res).iter() {
+            v.push(b.bound_rule().clone());
+        }
+        Some(v)
+    }
 }
 
 pub struct HotF;
@@ -210,6 +229,13 @@ impl Fam for HotF {
     }
     fn get_res(res: &String) -> Option<Vec<Arc<hotspot::Rule>>> {
         Some(hotspot::get_rules_of_resource(res))
+    }
+    fn enforced(res: &String) -> Option<Vec<Arc<hotspot::Rule>>> {
+        let mut v = Vec::new();
+        for c in hotspot::get_traffic_controller_list_for(res).iter() {
+            v.push(c.rule().clone());
+        }
+        Some(v)
     }
 }
 
@@ -427,6 +453,9 @@ pub fn run<F: Fam>(s: Shape) {
             let res = if k == 0 { r1() } else { r2() };
             if let Some(got) = F::get_res(&res) {
                 vrt::check(same_set::<F>(&pool, &got, &want, Some(&res)), "C10:get_rules_of_resource");
+            }
+            if let Some(enf) = F::enforced(&res) {
+                vrt::check(same_set::<F>(&pool, &enf, &want, Some(&res)), "C10:enforced-rules-differ-from-the-rules-given");
             }
         }
         vrt::unordered(false);
